@@ -186,7 +186,8 @@ def scan(
                 w,
                 "%s [in %s: %s]" % (norm(e), kind, ctx[:120]),
                 False,
-                "truthiness of %s : %s conflates None with a falsy %s"
+                ("truthiness of %s : %s conflates None with a falsy %s" if opt else
+                 "truthiness of %s : %s decides, but a bound %s may be falsy")
                 % (norm(e), text, "/".join(h.rsplit(".", 1)[-1] for h in hits)),
                 node=e,
             )
